@@ -2073,7 +2073,7 @@ def act_gsymbol_string_recognizer(context, nodes):
     recognizer = act_recognizer_str(context, nodes)
 
     terminal_ref = Reference(
-        Location(context), recognizer.name, context.extra.imported_with
+        Location(context), escape(recognizer.name), context.extra.imported_with
     )
 
     if terminal_ref.name not in context.extra.inline_terminals:
